@@ -223,7 +223,7 @@ def run(ctx):
 
 
 def d2_single_reader(ctx, reader):
-    allowed = {reader.key, 'darr/__init__.py::open'}
+    allowed = {reader.key} | {g.key for g in ctx.repo.module('__init__').all_funcs()}   # the reader, and the dispatch of darr.open
     readers = []
     for f in ctx.repo.all_funcs():
         for node, callee in ctx.E.callees(f):
@@ -286,6 +286,16 @@ def d5_open(ctx):
     # ValueError is raised (path conditions folded; independent of the layout of the dispatch chain)
     kinds = find_defs(f, lambda v: any(isinstance(x, ast.Subscript) and isinstance(x.slice, ast.Constant) and
                                        x.slice.value == 'darrobject' for x in ast.walk(v)))
+    if not kinds:
+        # the kind is fetched by a helper of the front module: the local bound to the helper's result plays the role
+        for n in own_nodes(f.node):
+            if isinstance(n, ast.Assign) and len(n.targets) == 1 and isinstance(n.targets[0], ast.Name) and \
+                    isinstance(n.value, ast.Call):
+                tg = [t for k, t in ctx.R.resolve_call(n.value, f) if k == 'repo']
+                if tg and tg[0].module.name == '__init__' and any(
+                        isinstance(x, ast.Subscript) and isinstance(x.slice, ast.Constant) and x.slice.value == 'darrobject'
+                        for x in ast.walk(tg[0].node)):
+                    kinds = [(n.targets[0].id, n.value)]
     ok = False
     if kinds:
         ft = folder({kinds[0][0]: '<some other kind>'}, f)
@@ -295,3 +305,26 @@ def d5_open(ctx):
         ok = normal is False and 'ValueError' in raised and not any(g.node_for(r) in reach for r in rets)
     ctx.decide(ok, 'R-DOM', 'D5', f, None, 'open-rejects-unknown-kind',
                'darr.open raises ValueError for an unknown darrobject', detail='an unknown kind does not end in raise ValueError')
+    # a failure to read the kind (descriptor missing, not a dictionary, no 'darrobject' key) is never replaced by a
+    # guess: no handler in the package's front module catches around the descriptor read / the key lookup without
+    # re-raising (RaggedArray() itself never reads the top-level descriptor, so the dispatch read is the only thing
+    # that refuses a ragged directory without one)
+    swallow, nread = [], 0
+    for g in ctx.repo.module('__init__').all_funcs():
+        for n in own_nodes(g.node):
+            is_read = (isinstance(n, ast.Call) and isinstance(n.func, ast.Attribute) and
+                       n.func.attr in ('read_jsondict', 'read_jsonfile')) or \
+                      (isinstance(n, ast.Subscript) and isinstance(n.slice, ast.Constant) and n.slice.value == 'darrobject')
+            if not is_read:
+                continue
+            nread += 1
+            for p_, field in enclosing(g.node, n):
+                if isinstance(p_, ast.Try) and field == 'body':
+                    for h in p_.handlers:
+                        if not always_raises(h.body):
+                            swallow.append(f'{g.loc(h)} {g.qualname}: except {norm(h.type) if h.type is not None else ""}')
+    ctx.decide(not swallow, 'R-RECOVER', 'D5', f, None, 'open-kind-read-not-swallowed',
+               'darr.open: a failed read of the stored object kind propagates (no handler substitutes a guessed kind)',
+               detail=f'handler(s) that do not re-raise around the descriptor read: {sorted(set(swallow))[:3]} — a directory '
+                      f'without a (valid) top-level arraydescription.json is opened as whatever the fallback guesses')
+    ctx.floor('C18 kind reads in darr/__init__.py', nread, 1)
